@@ -291,7 +291,7 @@ theorem readCommands_sim (wo' : WordOracle) (window window' : Nat) (hw : window 
 -- one `match … with | none => none | some … =>` level of a reader, on the lone run `hc` and on the goal
 set_option hygiene false in
 local macro "mstep" : tactic =>
-  `(tactic| (split at hc; (· exact absurd hc (by simp)); rename_i heq; simp only [heq]))
+  `(tactic| (split at hc; (· exact absurd hc (by simp)); rename_i heq; try simp only [heq]))
 -- one `if … then none else` level
 set_option hygiene false in
 local macro "istep" : tactic =>
@@ -306,11 +306,6 @@ theorem readCompressedBody_sim (wo' : WordOracle) (window window' : Nat) (hw : w
       RingRel p s1.ring ρ1' := by
   unfold readCompressedBody at hc ⊢
   mstep; istep
-  split at hc
-  · exact absurd hc (by simp)
-  rename_i heq
-  rw [heq]
-  trace_state
   mstep; istep; mstep; istep; mstep; mstep
   dsimp only at hc ⊢
   mstep; mstep; istep; mstep; istep; mstep; mstep; mstep
